@@ -166,7 +166,9 @@ func (a *dataSetAof) Close() {
 	}
 	a.mux.Lock()
 	writer := a.writer
-	readers := a.readers
+	// copy : every closed reader removes itself through DelReader, which shifts a.readers in place
+	// while this loop runs; iterating the shared array would skip readers and leave them running
+	readers := append([]*AofRotateReader(nil), a.readers...)
 	a.mux.Unlock()
 	if writer != nil {
 		writer.Close()
